@@ -12,6 +12,7 @@ from fractions import Fraction
 
 from .common import Clause, run_parallel
 from . import c19_spec
+from . import c19_foreign
 
 TOKENS = ['2', '3.5', '.5', '+', '-', '*', '/', '\\', '(', ')', ' ']
 NARROW_TOKENS = ['2', '-', '/', '(', ')']       # longer sequences over the tokens that drive the parser's state machine
@@ -79,6 +80,16 @@ def check_eval(src):
         if o != 'zde' and abs(g - o) <= Fraction(1, 10 ** 9) * max(1, abs(o)):
             return None
     return '%sevaluate(%r) = %r, expected %s' % (_tag(tags), src, got, want)
+
+
+def check_eval_foreign(src):
+    """src contains a character outside the expression alphabet (digits . + - * / \\ ( ) blank TAB NBSP): whatever other
+    number reader would accept the string, evaluate() must raise the module's parse error"""
+    foreign = [ch for ch in src if ch not in c19_foreign.ALPHABET]
+    cls = c19_spec.classify(src, _int_division_modes())
+    if not foreign or cls[0] != 'malformed':
+        return 'generator defect: %r was generated as a foreign-notation string but is classified %s' % (src, cls[0])
+    return check_eval(src)
 
 
 def check_extract(text):
@@ -206,6 +217,18 @@ def run(tier, seed):
                'a case is one arbitrary input string for evaluate() (error clause; value checked too when the string is '
                'in the language); distinct by string', exhaustive=True)
     run_parallel(c, 'bounded.c19', 'check_eval', strings(EVAL_ALPHA, sl), chunk=4000)
+    out.append(c.done())
+
+    c = Clause('evaluate-foreign-notation', 'B',
+               'strings with a character outside the expression alphabet that other number readers accept or skip: one '
+               'foreign character (%d of them: printable ASCII outside the alphabet, control / line-break / Unicode space '
+               'characters, non-decimal numerics, operator look-alikes) at every position of %d carriers; exponent, '
+               'digit-separator, radix-prefix, suffix and number-word (inf, nan, ...) notations; non-blank white space '
+               'around numbers' % (len(c19_foreign.FOREIGN_CHARS), len(c19_foreign.CARRIERS)),
+               'enumerated class of bounded.c19_foreign (same in both tiers)',
+               'a case is one input string for evaluate(); it is malformed (c19_spec) and must raise '
+               'MathExpressionException; distinct by string', exhaustive=True)
+    run_parallel(c, 'bounded.c19', 'check_eval_foreign', c19_foreign.cases(), chunk=2000)
     out.append(c.done())
 
     c = Clause('extract-exhaustive', 'B', 'all strings over %r' % EXTRACT_ALPHA,
